@@ -112,17 +112,14 @@ Definition token_byte (b : byte) : bool :=          (* bytes the reader keeps in
   match act T03 MToken b with ASkip | ATokenStart => true | _ => false end.
 Definition token_first (b : byte) : bool :=
   match act T03 MValue b with ATokenStart => true | _ => false end.
-Definition numeric_like (buf : list byte) : bool :=
-  int_rx buf || float_rx None buf || float_rx (Some 101%N) buf || float_rx (Some 100%N) buf ||
-  float_rx (Some 115%N) buf || float_rx (Some 102%N) buf || float_rx (Some 108%N) buf || ratio_rx buf.
 Definition bare_ok (name : list byte) : bool :=      (* a name printed without |...| reads back as that symbol *)
   match name with
   | [] => false
   | b :: r => token_first b && forallb token_byte r
   end && negb (is_t name) && negb (is_nil_tok name) && negb (bytes_eqb name [46%N]).
 (* inl: the symbol sits inside a list that createTree renders ( *print-pretty* t).
-   A name that looks like a number is no longer a guard matter: Symbol.needPipes asks the reader's own token
-   resolution and puts such names between bars (repo_fixes C03-3). *)
+   A name that looks like a number is no longer a guard matter: Symbol.needPipes matches the name against the
+   reader's number patterns and puts such names between bars (repo_fixes C03-3). *)
 Definition sym_ok (c : pcfg) (inl : bool) (name : list byte) : bool :=
   forallb (fun b => (b <? 128)%N) name &&
   match name with
